@@ -1,41 +1,186 @@
 /-
-C04 — `pre_to_levelorder` finds the in-order splitters in the level-order array: checked by
-evaluation for the tree depths 1..10 (the default parameter set has TreeBits = 10).
+C04 — `pre_to_levelorder` finds the in-order splitters in the level-order array, for every
+tree depth (uniform proof: the `r`-th node in order, `r = 2^t · odd`, sits `t` levels above the
+leaves at position `r / 2^(t+1)` of its level).
 -/
 import TlxVerif.Proofs.C04Build
 namespace TlxVerif.C04
 
-theorem indexOk_1 : IndexOk 1 := by decide +kernel
-theorem indexOk_2 : IndexOk 2 := by decide +kernel
-theorem indexOk_3 : IndexOk 3 := by decide +kernel
-theorem indexOk_4 : IndexOk 4 := by decide +kernel
-theorem indexOk_5 : IndexOk 5 := by decide +kernel
-theorem indexOk_6 : IndexOk 6 := by decide +kernel
-theorem indexOk_7 : IndexOk 7 := by decide +kernel
-theorem indexOk_8 : IndexOk 8 := by decide +kernel
-theorem indexOk_9 : IndexOk 9 := by decide +kernel
-theorem indexOk_10 : IndexOk 10 := by decide +kernel
+/-- `ctz<uint32_t>(r)` -/
+def tzn (r : Nat) : Nat := (BitVec.ofNat 32 r).ctz.toNat
 
-theorem indexOk_upto_10 (tb : Nat) (h1 : 1 ≤ tb) (h2 : tb ≤ 10) : IndexOk tb := by
-  match tb, h1, h2 with
-  | 1, _, _ => exact indexOk_1
-  | 2, _, _ => exact indexOk_2
-  | 3, _, _ => exact indexOk_3
-  | 4, _, _ => exact indexOk_4
-  | 5, _, _ => exact indexOk_5
-  | 6, _, _ => exact indexOk_6
-  | 7, _, _ => exact indexOk_7
-  | 8, _, _ => exact indexOk_8
-  | 9, _, _ => exact indexOk_9
-  | 10, _, _ => exact indexOk_10
+theorem tzn_ge_iff {r : Nat} (h0 : 0 < r) (h32 : r < 2 ^ 32) (m : Nat) : m ≤ tzn r ↔ r % 2 ^ m = 0 := by
+  unfold tzn
+  have hx : BitVec.ofNat 32 r ≠ 0#32 := by
+    intro e
+    have := congrArg BitVec.toNat e
+    simp only [BitVec.toNat_ofNat, BitVec.toNat_zero] at this
+    rw [Nat.mod_eq_of_lt h32] at this; omega
+  have htn : (BitVec.ofNat 32 r).toNat = r := by simp [Nat.mod_eq_of_lt h32]
+  constructor
+  · intro h
+    apply Nat.eq_of_testBit_eq
+    intro i
+    rw [Nat.testBit_mod_two_pow, Nat.zero_testBit]
+    by_cases hi : i < m
+    · have : (BitVec.ofNat 32 r).getLsbD i = false := BitVec.getLsbD_false_of_lt_ctz (by omega)
+      rw [← htn, BitVec.testBit_toNat, this]; simp
+    · simp [hi]
+  · intro h
+    rcases Nat.lt_or_ge (BitVec.ofNat 32 r).ctz.toNat m with hlt | hge
+    · exfalso
+      have hb := BitVec.getLsbD_true_ctz_of_ne_zero hx
+      have : (r % 2 ^ m).testBit (BitVec.ofNat 32 r).ctz.toNat = true := by
+        rw [Nat.testBit_mod_two_pow]
+        have e : r.testBit (BitVec.ofNat 32 r).ctz.toNat = (BitVec.ofNat 32 r).getLsbD (BitVec.ofNat 32 r).ctz.toNat := by
+          rw [← BitVec.testBit_toNat, htn]
+        rw [e, hb]; simp [hlt]
+      rw [h, Nat.zero_testBit] at this; cases this
+    · exact hge
+
+theorem eq_of_le_iff {a b : Nat} (h : ∀ m, m ≤ a ↔ m ≤ b) : a = b := by
+  have h1 := (h a).1 (Nat.le_refl _)
+  have h2 := (h b).2 (Nat.le_refl _)
+  omega
+
+theorem pow_mod_pow_eq_zero_iff (F m : Nat) : 2 ^ F % 2 ^ m = 0 ↔ m ≤ F := by
+  constructor
+  · intro h
+    rcases Nat.lt_or_ge F m with hlt | hge
+    · exfalso
+      have : 2 ^ F < 2 ^ m := Nat.pow_lt_pow_right (by omega) hlt
+      rw [Nat.mod_eq_of_lt this] at h
+      have : 0 < 2 ^ F := Nat.pow_pos (by omega)
+      omega
+    · exact hge
+  · intro h
+    obtain ⟨k, rfl⟩ := Nat.exists_eq_add_of_le h
+    rw [Nat.pow_add]; exact Nat.mul_mod_right _ _
+
+theorem tzn_pow (F : Nat) (hF : F < 32) : tzn (2 ^ F) = F := by
+  apply eq_of_le_iff
+  intro m
+  rw [tzn_ge_iff (Nat.pow_pos (by omega)) (Nat.pow_lt_pow_right (by omega) hF), pow_mod_pow_eq_zero_iff]
+
+theorem tzn_lt {r F : Nat} (h0 : 0 < r) (hr : r < 2 ^ F) (hF : F ≤ 32) : tzn r < F := by
+  have h32 : r < 2 ^ 32 := Nat.lt_of_lt_of_le hr (Nat.pow_le_pow_right (by omega) hF)
+  rcases Nat.lt_or_ge (tzn r) F with h | h
+  · exact h
+  · exfalso
+    have := (tzn_ge_iff h0 h32 F).1 h
+    rw [Nat.mod_eq_of_lt hr] at this; omega
+
+theorem tzn_add_pow {r F : Nat} (h0 : 0 < r) (hr : r < 2 ^ F) (hF : F < 32) : tzn (r + 2 ^ F) = tzn r := by
+  have hlt := tzn_lt h0 hr (by omega)
+  have h32 : r < 2 ^ 32 := Nat.lt_of_lt_of_le hr (Nat.pow_le_pow_right (by omega) (by omega))
+  have h32' : r + 2 ^ F < 2 ^ 32 := by
+    have : 2 ^ (F + 1) ≤ 2 ^ 32 := Nat.pow_le_pow_right (by omega) (by omega)
+    rw [Nat.pow_succ] at this; omega
+  have hpos : 0 < r + 2 ^ F := by omega
+  have hlt' : tzn (r + 2 ^ F) < F + 1 := tzn_lt hpos (by rw [Nat.pow_succ]; omega) (by omega)
+  apply eq_of_le_iff
+  intro m
+  rw [tzn_ge_iff hpos h32', tzn_ge_iff h0 h32]
+  rcases Nat.lt_or_ge F m with hm | hm
+  · -- neither number is divisible by 2^m (m > F)
+    constructor
+    · intro h
+      have := (tzn_ge_iff hpos h32' m).2 h; omega
+    · intro h
+      have := (tzn_ge_iff h0 h32 m).2 h; omega
+  · obtain ⟨k, rfl⟩ := Nat.exists_eq_add_of_le hm
+    rw [Nat.pow_add, Nat.add_mul_mod_self_left]
+
+/-- the level-order index of the `r`-th node in order (`1 ≤ r < 2^F`) of a subtree with `F`
+levels rooted at `idx` -/
+theorem levelIdx_formula : ∀ (F idx r : Nat), F ≤ 32 → 0 < r → r < 2 ^ F →
+    levelIdx F idx (r - 1) = idx * 2 ^ (F - 1 - tzn r) + r / 2 ^ (tzn r + 1)
+  | 0, _, r, _, h0, hr => by simp at hr; omega
+  | F + 1, idx, r, hF, h0, hr => by
+    have hposF : 0 < 2 ^ F := Nat.pow_pos (by omega)
+    simp only [levelIdx]
+    rcases Nat.lt_trichotomy r (2 ^ F) with hlt | heq | hgt
+    · have h1 : r - 1 < 2 ^ F - 1 := by omega
+      simp only [h1, if_true]
+      rw [levelIdx_formula F (2 * idx) r (by omega) h0 hlt]
+      have ht := tzn_lt h0 hlt (by omega)
+      have e : 2 ^ (F + 1 - 1 - tzn r) = 2 ^ (F - 1 - tzn r) * 2 := by
+        have : F + 1 - 1 - tzn r = (F - 1 - tzn r) + 1 := by omega
+        rw [this, Nat.pow_succ]
+      have : 2 * idx * 2 ^ (F - 1 - tzn r) = idx * (2 ^ (F - 1 - tzn r) * 2) := by
+        rw [Nat.mul_comm 2 idx, Nat.mul_assoc, Nat.mul_comm 2]
+      rw [e, this]
+    · subst heq
+      have h1 : ¬ (2 ^ F - 1 < 2 ^ F - 1) := by omega
+      simp only [h1, if_false, if_true]
+      rw [tzn_pow F (by omega)]
+      have : 2 ^ F / 2 ^ (F + 1) = 0 := Nat.div_eq_of_lt (Nat.pow_lt_pow_right (by omega) (by omega))
+      rw [this]; simp
+    · have h1 : ¬ (r - 1 < 2 ^ F - 1) := by omega
+      have h2 : ¬ (r - 1 = 2 ^ F - 1) := by omega
+      simp only [h1, h2, if_false]
+      rw [Nat.pow_succ] at hr
+      have hr' : r - 2 ^ F < 2 ^ F := by omega
+      have h0' : 0 < r - 2 ^ F := by omega
+      have e1 : r - 1 - 2 ^ F = (r - 2 ^ F) - 1 := by omega
+      rw [e1, levelIdx_formula F (2 * idx + 1) (r - 2 ^ F) (by omega) h0' hr']
+      have ht : tzn r = tzn (r - 2 ^ F) := by
+        have := tzn_add_pow h0' hr' (by omega)
+        rw [← this]; congr 1; omega
+      rw [← ht]
+      have htl : tzn r < F := by rw [ht]; exact tzn_lt h0' hr' (by omega)
+      -- r / 2^(t+1) = (r - 2^F) / 2^(t+1) + 2^(F-t-1)
+      have e2 : r / 2 ^ (tzn r + 1) = (r - 2 ^ F) / 2 ^ (tzn r + 1) + 2 ^ (F - 1 - tzn r) := by
+        have hsplit : 2 ^ F = 2 ^ (tzn r + 1) * 2 ^ (F - 1 - tzn r) := by
+          rw [← Nat.pow_add]; congr 1; omega
+        have hd := Nat.add_mul_div_left (r - 2 ^ F) (2 ^ (F - 1 - tzn r)) (Nat.pow_pos (by omega : 0 < 2) (n := tzn r + 1))
+        have : r = (r - 2 ^ F) + 2 ^ (tzn r + 1) * 2 ^ (F - 1 - tzn r) := by rw [← hsplit]; omega
+        rw [← this] at hd
+        exact hd
+      rw [e2]
+      have e3 : 2 ^ (F + 1 - 1 - tzn r) = 2 ^ (F - 1 - tzn r) * 2 := by
+        have : F + 1 - 1 - tzn r = (F - 1 - tzn r) + 1 := by omega
+        rw [this, Nat.pow_succ]
+      rw [e3, Nat.add_mul, Nat.one_mul]
+      have : 2 * idx * 2 ^ (F - 1 - tzn r) = idx * (2 ^ (F - 1 - tzn r) * 2) := by
+        rw [Nat.mul_comm 2 idx, Nat.mul_assoc, Nat.mul_comm 2]
+      rw [this]; omega
+
+/-- **`pre_to_levelorder(i + 1)` is the level-order index of the `i`-th in-order splitter**, for
+every tree depth up to 31 (the classifier supports 1..15). -/
+theorem indexOk (tb : Nat) (htb : tb ≤ 31) : IndexOk tb := by
+  intro i hi
+  unfold numSplitters at hi
+  have hpos : 0 < 2 ^ tb := Nat.pow_pos (by omega)
+  have hr : i + 1 < 2 ^ tb := by omega
+  have := levelIdx_formula tb 1 (i + 1) (by omega) (by omega) hr
+  simp only [Nat.add_sub_cancel, Nat.one_mul] at this
+  rw [this]
+  have ht := tzn_lt (by omega : 0 < i + 1) hr (by omega)
+  unfold preToLevel
+  show ((i + 1) >>> (tzn (i + 1) + 1) &&& numSplitters tb) ||| 1 <<< (tb - (tzn (i + 1) + 1)) = _
+  rw [Nat.shiftRight_eq_div_pow]
+  -- the quotient fits below the level bit
+  have hq : (i + 1) / 2 ^ (tzn (i + 1) + 1) < 2 ^ (tb - (tzn (i + 1) + 1)) := by
+    rw [Nat.div_lt_iff_lt_mul (Nat.pow_pos (by omega)), ← Nat.pow_add]
+    have : tb - (tzn (i + 1) + 1) + (tzn (i + 1) + 1) = tb := by omega
+    rw [this]; exact hr
+  have hmask : (i + 1) / 2 ^ (tzn (i + 1) + 1) &&& numSplitters tb = (i + 1) / 2 ^ (tzn (i + 1) + 1) := by
+    unfold numSplitters
+    rw [Nat.and_two_pow_sub_one_eq_mod]
+    apply Nat.mod_eq_of_lt
+    exact Nat.lt_of_lt_of_le hq (Nat.pow_le_pow_right (by omega) (by omega))
+  rw [hmask, Nat.or_comm, ← Nat.shiftLeft_add_eq_or_of_lt hq, Nat.shiftLeft_eq, Nat.one_mul]
+  congr 2
+  omega
 
 /-- **Classification with the real builder is monotone**: for sorted samples, the tree written by
-`build` classifies keys monotonically — with the explicit splitter array for every tree depth,
-with the index calculation (`SSClassifyTreeCalcUnrollInterleave`, the default) for depths up to 10. -/
+`build` classifies keys monotonically, with the explicit splitter array as well as with the index
+calculation of `SSClassifyTreeCalcUnrollInterleave` (the default). -/
 theorem build_findBkt_lt {tb : Nat} {samples : Array Key} {c : Classifier} {useCalc : Bool} (htb : 1 ≤ tb)
-    (hsz : 1 ≤ samples.size)
+    (htb' : tb ≤ 31) (hsz : 1 ≤ samples.size)
     (hsorted : ∀ (i j : Nat) (x y : Key), i ≤ j → samples[i]? = some x → samples[j]? = some y → x ≤ y)
-    (hb : build tb samples = some c) (hcalc : useCalc = true → tb ≤ 10)
+    (hb : build tb samples = some c)
     {k k' : Key} {b b' : Nat} (h : c.findBkt useCalc k = some b) (h' : c.findBkt useCalc k' = some b')
     (hlt : b < b') : k < k' := by
   obtain ⟨htbc, hbst, hsort⟩ := build_isBST htb hsz hsorted hb
@@ -46,7 +191,7 @@ theorem build_findBkt_lt {tb : Nat} {samples : Array Key} {c : Classifier} {useC
   cases useCalc with
   | true =>
     simp only [if_true]
-    exact getSplitterCalc_eq hbst (by rw [htbc]; exact indexOk_upto_10 tb htb (hcalc rfl)) i hi
+    exact getSplitterCalc_eq hbst (by rw [htbc]; exact indexOk tb htb') i hi
   | false => simp [Classifier.getSplitterArr]
 
 end TlxVerif.C04
